@@ -27,6 +27,6 @@ func main() {
 			}
 			return pipe.MakeCase(doc.Input, pipe.Workdir(), 0), nil
 		},
-		Shard: 40,
+		Shard: 8,
 	})
 }
